@@ -307,7 +307,16 @@ def build(sp, it, R=None):
         return np.array([next(it) for _ in range(sp.nvec.size)], dtype=np.int64).reshape(sp.nvec.shape)
     if isinstance(sp, GymBox):
         n = int(np.prod(sp.shape)) if sp.shape else 1
-        return np.array([next(it) for _ in range(n)], dtype=sp.dtype).reshape(sp.shape)
+        arr = np.array([next(it) for _ in range(n)], dtype=sp.dtype).reshape(sp.shape)
+        if R is not None and isinstance(sp, AbmarlBox) and sp.shape and R.random() < 0.25:
+            # abmarl's Box declares Python lists and tuples members too: the same point, another representation
+            alt = arr.tolist() if R.random() < 0.6 else tuple(arr.tolist())
+            try:
+                if alt in sp:
+                    return alt
+            except Exception:  # noqa: BLE001
+                pass
+        return arr
     if isinstance(sp, Dict):
         items = [(k, build(s, it, R)) for k, s in sp.spaces.items()]
         if R is not None and R.random() < 0.5:
@@ -968,7 +977,8 @@ def _session_events(desc, stop_after=None):
                              {} if st == "ok" else {"raised": str(val)[:200]})
                 if st != "ok":
                     return
-                for aid in observers:
+                # (one step in five is followed by the next one without any observation in between)
+                for aid in (observers if R.random() < 0.8 else []):
                     st, o = guarded(lambda: sim.get_obs(aid), 20.0)
                     e = ev(ep, t, aid, "obs", sim.agents[aid].observation_space, o if st == "ok" else None,
                            None if st == "ok" else "err", {} if st == "ok" else {"raised": str(o)[:200]})
